@@ -58,16 +58,18 @@ def exhaustive(ctx):
   ctx.analysed(fi, fg)
   ev0 = evaluator(m)
   ev = evaluator(m, opaque={'_rfd', '_fdson', '_adafd', '_sada'})
-  # table keys
-  import ast
-  keys = []
-  for node in ast.walk(fi.node):
-    if isinstance(node, ast.Dict):
-      keys = [ast.unparse(k).split('.')[-1] for k in node.keys]
-  ok = set(keys) | {'OGD', 'ADA'} == set(members) and len(keys) == len(set(keys))
+  # every sketched member resolves, through the factor table, to a factor function (whatever way the table is built)
+  factor_fns = {'_rfd', '_fdson', '_adafd', '_sada'}
+  resolved = {}
+  for mem in members:
+    if mem in ('OGD', 'ADA'):
+      continue
+    r = ev.run(fi, args={'hparams': _hp(m, ev0, mem)})
+    resolved[mem] = fn_name(r) if fn_name(r) in factor_fns else None
+  ok = bool(resolved) and all(v is not None for v in resolved.values()) and len(set(resolved.values())) == len(resolved)
   ctx.ob('C16.O1', fi.short, 'factor table covers every sketched algorithm', ok,
-         f'Algorithm members {sorted(members)} must be OGD, ADA plus the keys of the factor table {sorted(keys)}', ctx.loc(fi),
-         sample=f'{sorted(members)} = OGD, ADA + {sorted(keys)}')
+         f'every Algorithm member other than OGD / ADA must select its own factor function through _fd_method_factors; resolved {resolved}', ctx.loc(fi),
+         sample=f'{sorted(members)} = OGD, ADA + {sorted(resolved)}')
   want = {'OGD': ('_ogd_init_fn', '_ogd_update_fn'), 'ADA': ('_diag_adagrad_init_fn', '_diag_adagrad_update_fn')}
   for mem in members:
     evg = evaluator(m, opaque={'_ogd_init_fn', '_ogd_update_fn', '_diag_adagrad_init_fn', '_diag_adagrad_update_fn', '_fd_init_fn', '_fd_update_fn'})
